@@ -46,11 +46,12 @@ class Hang(BaseException):
 class StepMonitor:
     """Counts LINE events in sc3.base._osclib per delivery (per thread).
 
-    Budgets are logical: the bundle-element loop `_parse_contents` consumes at
-    least the 4 size bytes per iteration, so it cannot legitimately iterate more
-    than len/4 times over all nesting levels; an iteration is <= 10 lines.
-    Everything else in the parser is linear in the datagram size with small
-    constants (string scan 2 lines/byte, type-tag chain <= 25 lines/tag)."""
+    Bounds are logical: one activation of the bundle-element loop
+    `_parse_contents` consumes at least the 4 size bytes per iteration, so no
+    line of it can legitimately execute more than len/4 (+ slack) times; one
+    activation of any other parser function passes over each byte at most
+    once.  The activation that exceeds its bound names the hang.  A total step
+    budget (linear in the size) is the backstop."""
 
     TOOL = 4
 
@@ -91,8 +92,13 @@ class StepMonitor:
 
     def arm(self, nbytes):
         self.epoch += 1
-        self.budget_pc = 25 * (nbytes // 4 + 2) + 100
-        self.budget_all = 80 * nbytes + 4000
+        self.nbytes = nbytes
+        # one activation of the element loop: <= one iteration per 4 bytes
+        self.limit_pc = nbytes // 4 + 4
+        # one activation of any other parser function: <= one pass per byte
+        self.limit_any = nbytes + 16
+        # backstop over the whole parse
+        self.budget_all = 120 * nbytes + 6000
 
     def _cb(self, code, line):
         st = self.tls
@@ -101,26 +107,40 @@ class StepMonitor:
             st.pc = 0
             st.all = 0
             st.reported = False
+            st.repeat = {}
+            st.pc_max = 0
         st.all += 1
+        # how often did *this activation* execute *this line*?  (frames are
+        # kept alive by the dict until the next arm(), so ids are not reused)
+        key = (sys._getframe(1), line)
+        c = st.repeat.get(key, 0) + 1
+        st.repeat[key] = c
         if code is self.pc_code:
             st.pc += 1
-            if st.pc > self.budget_pc:
-                if not st.reported:
-                    st.reported = True
-                    self.hangs.append(('OscBundle._parse_contents', st.pc, self.epoch))
-                raise Hang('OscBundle._parse_contents exceeded its step budget')
+            if c > st.pc_max:
+                st.pc_max = c
+            limit = self.limit_pc
+        else:
+            limit = self.limit_any
+        if c > limit:
+            if not st.reported:
+                st.reported = True
+                self.hangs.append((code.co_qualname, c, self.epoch))
+            raise Hang(f'{code.co_qualname} repeats a line {c} times for '
+                       f'{self.nbytes} bytes')
         if st.all > self.budget_all:
             if not st.reported:
                 st.reported = True
-                self.hangs.append((code.co_qualname, st.all, self.epoch))
-            raise Hang(f'{code.co_qualname} exceeded the parser step budget')
+                self.hangs.append(('parser-total-steps', st.all, self.epoch))
+            raise Hang('parser exceeded its total step budget')
 
     def harvest(self):
         """Line events of the calling thread in this epoch."""
         st = self.tls
         if getattr(st, 'epoch', None) == self.epoch:
             self.total += st.all
-            self.max_pc = max(self.max_pc, st.pc)
+            self.max_pc = max(self.max_pc, st.pc_max)
+            st.repeat = {}
             return st.all
         return 0
 
@@ -145,7 +165,8 @@ class _Capture(logging.Handler):
 
 class Delivery:
     __slots__ = ('escaped', 'hangs', 't0', 't1', 'raw', 'inv', 'errs',
-                 'canary_ok', 'canary_tries', 'steps', 'recv_port', 'sender')
+                 'canary_ok', 'canary_tries', 'steps', 'recv_port', 'sender',
+                 'clock_step', 'send_error')
 
     def witness(self):
         return {'escaped': self.escaped, 'hangs': self.hangs,
@@ -273,9 +294,15 @@ class Rig:
         itf = self.interface(port)
         r.recv_port = itf.port
         self.mon.arm(len(d) + (64 if udp else 0))
+        r.steps = 0
+        r.send_error = None
+        w0, m0 = time.time(), time.monotonic()
         r.t0 = self.main.elapsed_time()
         if udp:
-            self.sock.sendto(d, ('127.0.0.1', itf.port))
+            try:
+                self.sock.sendto(d, ('127.0.0.1', itf.port))
+            except OSError as e:           # e.g. larger than a UDP datagram
+                r.send_error = str(e)
         else:
             try:
                 itf._handle_request(d, tuple(sender))
@@ -286,12 +313,18 @@ class Rig:
         r.t1 = self.main.elapsed_time()
         ok = self._canary(udp, 10.0)
         tries = 1
-        while not ok and tries < 3:
-            ok = self._canary(udp, 3.0)
+        while not ok and tries < 4:
+            # (a canary is lost legitimately when a callback ran
+            # CmdPeriod.run(), which clears the SystemClock queue; the last,
+            # long wait separates a starved host from a dead receiver)
+            ok = self._canary(udp, 3.0 if tries < 3 else 30.0)
             tries += 1
         if udp:
-            r.steps = 0
             r.t1 = self.main.elapsed_time()
+        w1, m1 = time.time(), time.monotonic()
+        # sc3's elapsed time is time.time() based: a stepped host clock makes
+        # time stamps and canary ordering meaningless for this delivery
+        r.clock_step = abs((w1 - w0) - (m1 - m0)) > 0.005
         r.canary_ok = ok
         r.canary_tries = tries
         r.hangs = [h[:2] for h in self.mon.hangs[nh:]]
